@@ -62,15 +62,18 @@ def mkval(kind, uid):
         # _NpcArrayStorage keeps the charge metadata in RAM and only the blocks on disk
         from tenpy.linalg import np_conserved as npc
         chinfo = _chinfo()
-        qflat = [[0], [1]] if uid % 5 else [[0], [0], [1]]
+        # same shape with different sector sizes (3x3: charges 0,0,1 vs 0,1,1), a different shape (2x2),
+        # real vs complex entries, different labels: everything that lives in the RAM-side metadata
+        qflat = [[[0], [1]], [[0], [0], [1]], [[0], [1], [1]]][uid % 3]
         leg = npc.LegCharge.from_qflat(chinfo, qflat)
         n = len(qflat)
-        a = real_np.zeros((n, n))
+        a = real_np.zeros((n, n), dtype=complex if uid % 4 == 0 else float)
         a[0, 0] = float(uid)
-        a[n - 1, n - 1] = float(uid % 3)  # 0: this block is absent
-        if n == 3:
-            a[0, 1] = a[1, 0] = 0.5
-        return npc.Array.from_ndarray(a, [leg, leg.conj()], labels=['p', 'p*'])
+        a[n - 1, n - 1] = float(uid % 5)  # 0: this block is absent
+        if uid % 4 == 0:
+            a[n - 1, n - 1] += 0.5j
+        labels = ['p', 'p*'] if uid % 7 else ['a', 'b']
+        return npc.Array.from_ndarray(a, [leg, leg.conj()], labels=labels)
     raise ValueError(kind)
 
 
@@ -86,7 +89,7 @@ def val_uid(kind, v):
         elif kind in ('ndarray', 'ndarray_pickled'):
             uid = int(v[0])
         elif kind == 'npc':
-            uid = int(v.to_ndarray()[0, 0])
+            uid = int(round(float(real_np.real(v.to_ndarray()[0, 0]))))
         if not isinstance(uid, int) or isinstance(uid, bool):
             return ('bad', repr(v)[:80])
         ref = mkval(kind, uid)
@@ -95,7 +98,9 @@ def val_uid(kind, v):
         elif kind in ('ndarray', 'ndarray_pickled'):
             ok = isinstance(v, real_np.ndarray) and v.shape == ref.shape and bool((v == ref).all())
         else:
-            ok = v.get_leg_labels() == ref.get_leg_labels() and bool((v.to_ndarray() == ref.to_ndarray()).all())
+            ok = (v.get_leg_labels() == ref.get_leg_labels() and v.dtype == ref.dtype and v.shape == ref.shape
+                  and bool((v.to_ndarray() == ref.to_ndarray()).all())
+                  and all(l1.test_equal(l2) is None for l1, l2 in zip(v.legs, ref.legs)))
             v.test_sanity()
         return uid if ok else ('bad', repr(v)[:80])
     except Exception as e:  # noqa: BLE001
